@@ -60,6 +60,7 @@ func c17Cases(tier string) []*space.Case {
 		{"plain-default", "Traits", ""},
 		{"qualified-default", "github.com/acme/pkg/wrappers.Traits", ""},
 		{"qualified-configured", "github.com/acme/pkg/wrappers.Traits", "Traits"},
+		{"underscores-default", "my_pkg/sub_dir.Path_Value2", ""},
 	}
 	positions := []string{"P0", "P1nullable", "P2nonnull", "P3listval", "P3listptr", "P4mapval", "P4mapptr"}
 	for si, sh := range shapes {
